@@ -312,7 +312,7 @@ Proof.
     destruct (_ && _); [discriminate|]. destruct (len <? -1)%Z; [discriminate|].
     destruct (cons i).
     + apply bind_not_panic; [apply IHk|]. intros [ks r3] _. discriminate.
-    + destruct (_ <? len)%Z; [discriminate|]. destruct (_ <? _)%nat; [discriminate|].
+    + destruct (_ <? len)%Z; [discriminate|]. destruct (_ <? _); [discriminate|].
       destruct (_ && _); discriminate.
   - intros rem bs acc. cbn [read_kids].
     assert (G : bind (read_pkt prim_ok f bs)
@@ -378,13 +378,12 @@ Section WireWf.
         do (ks, r3) <- read_kids prim_ok f (if (len =? -1)%Z then None else Some (Z.to_N len)) r2 [];
         Ok (Pkt i (concat (map bytes_of ks)) ks, r3)
       else if (MaxPacketLengthBytes <? len)%Z then Err
+      else if N.of_nat (length r2) <? Z.to_N len then Err
       else
         let n := Z.to_nat len in
-        if (length r2 <? n)%nat then Err
-        else
-          let content := firstn n r2 in
-          if (cls i =? 0) && negb (content_ok prim_ok (tag i) content) then Err
-          else Ok (Pkt i content [], skipn n r2).
+        let content := firstn n r2 in
+        if (cls i =? 0) && negb (content_ok prim_ok (tag i) content) then Err
+        else Ok (Pkt i content [], skipn n r2).
   Proof. reflexivity. Qed.
 
   Lemma read_kids_S f rem bs acc : read_kids prim_ok (S f) rem bs acc =
@@ -482,7 +481,7 @@ Section WireWf.
       unfold MaxPacketLengthBytes.
       replace (2147483647 <? Z.of_N (N.of_nat (length d)))%Z with false by (symmetry; apply Z.ltb_ge; lia).
       cbv zeta. replace (Z.to_nat (Z.of_N (N.of_nat (length d)))) with (length d) by lia. rewrite app_length.
-      destruct (length d + length rest <? length d)%nat eqn:?; [lia|].
+      destruct (N.of_nat (length d + length rest) <? Z.to_N (Z.of_N (N.of_nat (length d)))) eqn:?; [lia|].
       rewrite firstn_app_exact, skipn_app_exact.
       destruct (cls i =? 0) eqn:Ec; cbn [negb orb andb] in *.
       + rewrite Hcontent. reflexivity.
